@@ -37,7 +37,12 @@ Inductive fop :=
   (* ReadNext until EOF: the (len, position after) of every line returned *)
   | FReadAll (obs : list (Z * Z))
   (* seekTS: target, result class, returned pos, depth, q.position afterwards *)
-  | FSeek (ts : Z) (code pos depth pos_after : Z).
+  | FSeek (ts : Z) (code pos depth pos_after : Z)
+  (* round 6: the same reads observed with q.bufferStart after the call as
+     well: (len, position after, bufferStart after): where the 1.6 MB windows
+     fall is part of what is compared *)
+  | FReadB (obs : option (Z * Z * Z))
+  | FReadAllB (obs : list (Z * Z * Z)).
 
 (** Operations on a qLogReader. *)
 Inductive rop :=
@@ -65,7 +70,19 @@ Inductive case :=
   | CReader (me buf : Z) (fs : list (list (Z * Z))) (ops : list rop)
   (* the lines of the file as bytes; time.Parse of every quote-delimited piece
      of them that parses (text, Unix nanoseconds); the operations *)
-  | CBytes (me buf : Z) (lines : list bytes) (otbl : list (bytes * Z)) (ops : list bop).
+  | CBytes (me buf : Z) (lines : list bytes) (otbl : list (bytes * Z)) (ops : list bop)
+  (* round 6, a window of a LARGE file at the byte level: the lines of the file
+     from its beginning up to the line that ends at the reader's position
+     (ReadNext never looks at a byte at or beyond the position it starts from),
+     the state of the real reader before the first operation (q.position,
+     q.bufferStart, q.buffer != nil), and the reads that follow: two records on
+     either side of a window boundary *)
+  | CBytesAt (me buf : Z) (lines : list bytes) (pos0 bs0 : Z) (valid0 : bool) (ops : list bop)
+  (* round 6: the metadata the file had while the operations ran (mtime and
+     atime in Unix nanoseconds, permission bits).  The model has no metadata:
+     the reader is a function of the bytes (Proofs/QLogDisk.v); the evaluator
+     runs the inner case as it is *)
+  | CMeta (mtime atime mode : Z) (c : case).
 
 Definition seek_code (r : seek_res) : Z :=
   match r with
@@ -90,6 +107,17 @@ Fixpoint f_reads (me buf : Z) (f : qfile) (obs : list (Z * Z)) (s : rstate) : bo
       if eqb_option eqb_zz (proj_read x) (Some o) then f_reads me buf f obs (snd x) else (false, s)
   end.
 
+Definition proj_read_b (x : option (Z * Z) * rstate) : option (Z * Z * Z) :=
+  match x with (Some (_, len), s') => Some (len, pos s', buf_start s') | (None, _) => None end.
+
+Fixpoint f_reads_b (me buf : Z) (f : qfile) (obs : list (Z * Z * Z)) (s : rstate) : bool * rstate :=
+  match obs with
+  | [] => (true, s)
+  | o :: obs =>
+      let x := read_next me buf f s in
+      if eqb_option eqb_zzz (proj_read_b x) (Some o) then f_reads_b me buf f obs (snd x) else (false, s)
+  end.
+
 Fixpoint f_replay (me buf : Z) (f : qfile) (ops : list fop) (s : rstate) : bool :=
   match ops with
   | [] => true
@@ -110,6 +138,16 @@ Fixpoint f_replay (me buf : Z) (f : qfile) (ops : list fop) (s : rstate) : bool 
       (seek_code r =? code) &&
       match r with Found p' d' => (p' =? p) && (d' =? d) | _ => true end &&
       (pos s' =? pa) && f_replay me buf f ops s'
+  | FReadB o :: ops =>
+      let x := read_next me buf f s in
+      eqb_option eqb_zzz (proj_read_b x) o && f_replay me buf f ops (snd x)
+  | FReadAllB obs :: ops =>
+      let (l, e) := read_all me buf f (S (length obs)) s in
+      e && eqb_list eqb_zz
+             (map (fun x : Z * Z => (snd x, if fst x =? 0 then 0 else fst x - 1)) l)
+             (map (fun x : Z * Z * Z => fst x) obs) &&
+      let (ok, s') := f_reads_b me buf f obs s in
+      ok && match read_next me buf f s' with (None, s'') => f_replay me buf f ops s'' | _ => false end
   end.
 
 Definition proj_rread (x : option (Z * Z * Z) * reader) : option (Z * Z * Z) :=
@@ -185,7 +223,7 @@ Definition to_fop (ls : list bytes) (o : bop) : list fop :=
   | BStamp _ _ => []
   end.
 
-Definition case_ok (c : case) : bool :=
+Fixpoint case_ok (c : case) : bool :=
   match c with
   | CFile me buf f ops =>
       (me =? max_entry_size) && (buf =? buffer_size) && f_replay me buf f ops rstate0
@@ -196,13 +234,21 @@ Definition case_ok (c : case) : bool :=
       (me =? max_entry_size) && (buf =? buffer_size) &&
       b_replay o me buf ls (flat ls) ops rstate0 &&
       f_replay me buf (absf o ls) (flat_map (to_fop ls) ops) rstate0
+  | CBytesAt me buf ls p bs v ops =>
+      let s := {| pos := p; buf_start := bs; buf_valid := v |} in
+      let o := fun _ : bytes => 0 in
+      (me =? max_entry_size) && (buf =? buffer_size) &&
+      (p =? blen (flat ls) - 1) &&
+      b_replay o me buf ls (flat ls) ops s &&
+      f_replay me buf (absf o ls) (flat_map (to_fop ls) ops) s
+  | CMeta _ _ _ c => case_ok c
   end.
 
 Definition mismatches := Base.Run.mismatches case_ok.
 
 (** For replay files: what the model computes from a fresh reader: the full
     reverse read as (start, len), and the result of every seek in the case. *)
-Definition explain (c : case) :=
+Fixpoint explain (c : case) :=
   match c with
   | CFile me buf f ops =>
       (fst (read_all me buf f (S (length f)) (seek_start f rstate0)),
@@ -225,4 +271,12 @@ Definition explain (c : case) :=
                               [(ts, seek_code (b_seek_ts o me (flat ls) ts),
                                 match b_seek_ts o me (flat ls) ts with Found p _ => p | _ => -1 end)]
                           | _ => [] end) ops)
+  | CBytesAt me buf ls p bs v ops =>
+      (* what the byte-level model returns from that state: (length, lineIdx) *)
+      let s := {| pos := p; buf_start := bs; buf_valid := v |} in
+      (fst (fold_left (fun (a : list (Z * Z) * rstate) (_ : bop) =>
+              let x := b_read_next me buf (flat ls) (snd a) in
+              (fst a ++ match fst x with Some (str, i) => [(blen str, i)] | None => [] end, snd x))
+            ops ([], s)), [])
+  | CMeta _ _ _ c => explain c
   end.
